@@ -954,6 +954,9 @@ func execPEM(c PEMCase) (vh.Outcome, error) {
 		return out, vh.Errf("bundle of %d certificates yielded %d", len(ders), len(got))
 	}
 	for i := range ders {
+		if got[i] == nil {
+			return out, vh.Errf("entry %d of the %d returned certificates is nil", i, len(got))
+		}
 		if !bytes.Equal(got[i].Raw, ders[i]) {
 			return out, vh.Errf("certificate %d of the bundle is out of order or altered", i)
 		}
@@ -966,7 +969,7 @@ func execPEM(c PEMCase) (vh.Outcome, error) {
 
 func TestC16PEM(t *testing.T) {
 	vh.Run(t, vh.Spec[PEMCase]{Property: "C16", Name: "TestC16PEM",
-		Rule: "PEM bundles of 0..5 (one in 40: 16..257) certificates drawn from the seed corpus, with leading text (tool output lines incl. ones starting with the digit 0, a hex dump line, dashes, a byte-order mark; every leading line ends with a newline, as the PEM armour must start a line), text between blocks, PEM headers, trailing whitespace, and (negatively) trailing non-space garbage. Oracle: n>=1 => exactly n certificates in order, Raw-identical, and the single-certificate entry point returns the first; trailing garbage => error; a block whose body is two concatenated certificates (trailing data inside the block) => error; whitespace-only => no certificates and no error; leading text without certificates => either outcome. Non-trivial: >=2 certificates, or one with decoration.",
+		Rule: "PEM bundles of 0..5 (one in 40: 16..257) certificates drawn from the seed corpus, with leading text (tool output lines incl. ones starting with the digit 0, a hex dump line, dashes, a byte-order mark, the armour line quoted in the middle of a line; every leading line ends with a newline, as the PEM armour must start a line), text between blocks, PEM headers, trailing whitespace, and (negatively) trailing non-space garbage. Oracle: n>=1 => exactly n certificates in order, Raw-identical, and the single-certificate entry point returns the first; trailing garbage => error; a block whose body is two concatenated certificates (trailing data inside the block) => error; whitespace-only => no certificates and no error; leading text without certificates => either outcome. Non-trivial: >=2 certificates, or one with decoration.",
 		Gen: func(t *rapid.T) PEMCase {
 			c := PEMCase{}
 			n := rapid.IntRange(0, 5).Draw(t, "n")
@@ -976,7 +979,7 @@ func TestC16PEM(t *testing.T) {
 			for i := 0; i < n; i++ {
 				c.Certs = append(c.Certs, rapid.IntRange(0, len(seedCorpus())-1).Draw(t, fmt.Sprintf("c%d", i)))
 				if rapid.IntRange(0, 3).Draw(t, fmt.Sprintf("hasB%d", i)) == 0 {
-					c.Between = append(c.Between, rapid.SampledFrom([]string{"\n", "# next certificate\n", "subject=/CN=x\nissuer=/CN=y\n", "\r\n\r\n", "  \n"}).Draw(t, fmt.Sprintf("b%d", i)))
+					c.Between = append(c.Between, rapid.SampledFrom([]string{"\n", "# next certificate\n", "subject=/CN=x\nissuer=/CN=y\n", "\r\n\r\n", "  \n", "# next: -----BEGIN CERTIFICATE-----\n"}).Draw(t, fmt.Sprintf("b%d", i)))
 				} else {
 					c.Between = append(c.Between, "")
 				}
@@ -987,7 +990,9 @@ func TestC16PEM(t *testing.T) {
 			}
 			c.Lead = rapid.SampledFrom([]string{"", "", "Bag Attributes\n  friendlyName: x\n", "# leading comment\n", "\n\n", "subject=CN=Yubico PIV Attestation\n",
 				// explanatory text as openssl / piv tools print it in front of the block: digits, a DER-looking first byte ('0' = 0x30), dashes
-				"0 s:CN = Yubico PIV Attestation\n   i:CN = Yubico PIV Root CA Serial 263751\n", "01:02:03 slot 9a\n", "0\n", "00000000  30 82 03 17\n", "-----\n", "--- certificate 1 ---\n", "Certificate:\n    Data:\n        Version: 3 (0x2)\n", "\xef\xbb\xbf\n", "\r\n", " \t\n", "-----BEGIN NOTHING\n"}).Draw(t, "lead")
+				"0 s:CN = Yubico PIV Attestation\n   i:CN = Yubico PIV Root CA Serial 263751\n", "01:02:03 slot 9a\n", "0\n", "00000000  30 82 03 17\n", "-----\n", "--- certificate 1 ---\n", "Certificate:\n    Data:\n        Version: 3 (0x2)\n", "\xef\xbb\xbf\n", "\r\n", " \t\n", "-----BEGIN NOTHING\n",
+				// the armour line quoted inside a line of text (not at the start of a line: no block starts there)
+				"# the block -----BEGIN CERTIFICATE----- follows\n", "see -----BEGIN CERTIFICATE----- ... -----END CERTIFICATE-----\n", "x-----BEGIN CERTIFICATE-----\n"}).Draw(t, "lead")
 			c.TrailWS = rapid.SampledFrom([]string{"", "", "\n", " \t\r\n", "\n\n\n"}).Draw(t, "trailWS")
 			if rapid.IntRange(0, 4).Draw(t, "hasGarbage") == 0 {
 				c.Garbage = rapid.SampledFrom([]string{"x", "garbage\n", "-----BEGIN CERTIFICATE-----\n", "-----BEGIN CERTIFICATE-----\nAAAA\n", "\x00", "-----END CERTIFICATE-----\n"}).Draw(t, "garbage")
